@@ -999,11 +999,43 @@ def _finite_predicates():
                 return np.array([sym_val if isinstance(v, Sym) else bool(f(float(v))) for v in x])
             return f(x, *a, **k)
         return g
+    # exp/log/sqrt/sin/cos on an object array dispatch to a METHOD of each element; a plain float sitting in the
+    # same array (a term that happened to be concrete) has no such method.  Wrap: elementwise, numbers go to math.
+    realu = {k: getattr(np, k) for k in ("exp", "log", "sqrt", "sin", "cos")}
+
+    def mku(name):
+        f = realu[name]
+        mf = getattr(math, name)
+
+        def one(v):
+            if isinstance(v, Sym):
+                return getattr(v, name)()
+            return mf(float(v))
+
+        def g(x, *a, **k):
+            if a or k:
+                return f(x, *a, **k)
+            if isinstance(x, np.ndarray) and x.dtype == object:
+                out = np.empty(x.shape, dtype=object)
+                for idx in np.ndindex(x.shape):
+                    out[idx] = one(x[idx])
+                return out if x.shape != () else out.item()
+            return f(x)
+        for attr in ("reduce", "accumulate", "outer", "at", "nin", "nout", "__name__"):
+            try:
+                setattr(g, attr, getattr(f, attr))
+            except Exception:
+                pass
+        return g
     np.isfinite, np.isnan, np.isinf = mk("isfinite", True), mk("isnan", False), mk("isinf", False)
+    for k_ in realu:
+        setattr(np, k_, mku(k_))
     try:
         yield
     finally:
         np.isfinite, np.isnan, np.isinf = real["isfinite"], real["isnan"], real["isinf"]
+        for k_, f_ in realu.items():
+            setattr(np, k_, f_)
 
 
 class PathResult(object):
